@@ -76,7 +76,15 @@ pub fn emit_case(krate: &mut Crate, case: &Case, rep: &mut Rep) {
         for gen_table in [0u8, 1] {
             let m = format!("g{}", krate.modules.len());
             // LR: prefer shifts so that more grammars are deterministic; GLR: defaults
-            let spec = SetSpec { glr, gen_table, ps: if glr { None } else { Some(true) }, ms: case.lex.0, lm: case.lex.1, fancy: case.fancy, ..Default::default() };
+            // table type: the default of the algorithm, or (a third of the cases each) an explicit one - also LALR_RN
+            // under LR and plain LALR under GLR, which are selectable and compute tables the source has to encode too
+            let tsel = (crate::ag::fnv(&case.text) as usize + glr as usize) % 3;
+            let table = match tsel {
+                0 => None,
+                1 => Some(if glr { 0u8 } else { 2u8 }),
+                _ => Some(if glr { 2u8 } else { 0u8 }),
+            };
+            let spec = SetSpec { glr, gen_table, table, ps: if glr { None } else { Some(true) }, ms: case.lex.0, lm: case.lex.1, fancy: case.fancy, ..Default::default() };
             let c = generate_into(&krate.src(), &m, &case.text, &spec);
             let (Outcome::Ok, Some(d)) = (&c.outcome, &c.dump) else {
                 rep.count("not_generated", 1);
